@@ -541,8 +541,44 @@ type detRunner struct {
 
 func detSkipRaw(k []byte) bool { return strings.Contains(string(k), detHLLTable) }
 
-// run applies the log under one condition and emits the run's events.
+// detRunDeadline: a run (one condition, normally well under a second) that does not come back
+// within this time twice in a row is recorded as event `hung` (no action in the specification).
+var detRunDeadline = 60 * time.Second
+
+// run applies the log under one condition and emits the run's events; the work happens in a
+// goroutine so that a deadlock inside the code under test cannot hang the driver.
 func (r *detRunner) run(log []detEntry, policy string, c detCond, logical bool, extra trace.M) error {
+	for attempt := 0; attempt < 2; attempt++ {
+		buf := &detMemW{}
+		sub := &detRunner{tw: buf, scratch: r.scratch, stats: map[string]int{}}
+		ch := make(chan error, 1)
+		go func() { ch <- sub.runInner(log, policy, c, logical, extra) }()
+		select {
+		case err := <-ch:
+			for _, e := range buf.evs {
+				r.tw.Emit(e)
+			}
+			for k, v := range sub.stats {
+				r.stats[k] += v
+			}
+			r.panics += sub.panics
+			return err
+		case <-time.After(detRunDeadline):
+			r.stats["run_timeouts"]++
+		}
+	}
+	ev := trace.M{"ev": "run", "cond": c.Name, "eng": c.Eng, "replay": c.Replay, "groups": len(c.Cuts), "restart": c.RKind}
+	for k, v := range extra {
+		ev[k] = v
+	}
+	r.tw.Emit(ev)
+	r.tw.Emit(trace.M{"ev": "hung", "cond": c.Name})
+	r.stats["runs"]++
+	r.stats["hung"]++
+	return nil
+}
+
+func (r *detRunner) runInner(log []detEntry, policy string, c detCond, logical bool, extra trace.M) error {
 	d, err := detOpenSM(r.scratch, c.Eng, policy)
 	if err != nil {
 		return err
@@ -797,6 +833,9 @@ func detsim(args []string) error {
 	fam := map[string]int{}
 	skipped := 0
 	for li := 0; li < *nlogs; li++ {
+		if stats["hung"] >= 1 {
+			break
+		}
 		r.tw = tws[li%len(tws)]
 		base := time.Now().Add(-2*time.Hour).UnixNano() + int64(li)*int64(10*time.Second)
 		g := &detGen{rng: rng, ts: base, hllMix: *hllMix}
@@ -823,10 +862,14 @@ func detsim(args []string) error {
 			}
 			r.tw.Emit(detLogEvent(li, kind, policy, log))
 			stats["logs"]++
+			hungBefore := stats["hung"]
 			for _, c := range detConds(rng, len(log), le, *full, g.hot) {
 				if err := r.run(log, policy, c, true, nil); err != nil {
 					fmt.Fprintln(os.Stderr, "run skipped:", c.Name, err)
 					skipped++
+				}
+				if stats["hung"] > hungBefore {
+					break // one hung run per log is enough evidence; each costs two deadlines
 				}
 			}
 		}
